@@ -415,9 +415,14 @@ def run_tree(plan, tr):
                     fail("U5", f"subset_owns_{c}_leaves_{kind}", f"the {k}-subset {list(comb_idx)} of {n} keys owns {c} leaves of the {kind} tree")
         leaf = hits[0]
         merkle_root = tree.hash()
-        cb = tree.control_block(internal, leaf)
+        # the subset asks the tree for the control block of the leaf it re-derived from its own keys (an equal, not identical, object)
+        cb = tree.control_block(internal, mine.tap_leaf())
         if cb is None:
-            fail("U5", "no_control_block", "control_block returned None for a leaf of the tree")
+            fail("U5", f"no_control_block_{kind}" + ("_single_leaf_tree" if len(leaves) == 1 else ""), f"the tree returns no control block for the leaf the {k}-subset {subset} re-derived from its keys ({len(leaves)} leaves in the tree)")
+            continue
+        cb2 = tree.control_block(internal, leaf)
+        if cb2 is None or cb2.serialize() != cb.serialize():
+            fail("U5", f"control_block_depends_on_leaf_object_{kind}", "control block for the tree's own leaf object differs from the one for an equal re-derived leaf")
             continue
         # ---- spend of that leaf
         spk = internal.p2tr_script(merkle_root)
